@@ -9,5 +9,5 @@ for t in tools/gen/*.py; do
   (cd tools/gen && python3 "$(basename "$t")") || echo "translator $t failed (reported by the checks)"
 done
 (cd tools/gen && python3 dispatch.py)
-(cd lean && lake build FuelVerif driver) || echo "lake build had failures (reported by the checks)"
+(cd lean && lake build FuelVerif && for f in FuelVerif/Drv/*.lean; do m=$(basename "$f" .lean | tr A-Z a-z); lake build "drv_$m" || echo "drv_$m failed"; done) || echo "lake build had failures (reported by the checks)"
 (cd harness && cargo build --release --offline) || echo "harness build failed (reported by the checks)"
